@@ -64,6 +64,9 @@ func (m *gmodel) step(op world.Op) bool {
 		if op.K == "when" && t.SkipRecv != nil && !t.SkipRecv(op.N) {
 			return false // clause arguments would have to include a receiver value
 		}
+		if op.K != "apply" && op.K != "cancel" && t.ApplyOnly != nil && t.ApplyOnly(op.N) {
+			return false
+		}
 		if g.hadBad && t.ByName != nil && t.ByName(op.N) {
 			return false // rejected configurations go through the history's lookup path; by name goom cannot type-check
 		}
